@@ -41,6 +41,8 @@ class Pattern(Leaf):
         pat = self.pattern or ""
         # multiline patterns are OK
         pat = trim(pat)
+        if not pat:
+            return "?''"
         if '/' in pat:
             newpat = pat.replace('"', r'\"')
             regex = f'?"{newpat}"'
